@@ -140,6 +140,24 @@ Theorem C06_network_no_lost_wakeup :
 Proof. intros nt boxes threads sched st Ht Hm. apply Wn_reachable; auto. Qed.
 Print Assumptions C06_network_no_lost_wakeup.
 
+(* ---------- the shutdown half, for EVERY network (any plugin DAG) and every schedule ---------- *)
+From SV Require Import Proof.MailboxFailShutdown.
+
+(* Once the caller's iterator has seen exception c (ThreadedMailboxProcessor.iter is killing the mailboxes, joining
+   the threads, or done: `noticed`), EVERY continuation that cannot be extended ends with all threads finished and the
+   caller holding exactly c — nothing can hang in kill-all / cleanup(), whatever the plugin graph, the capacities,
+   lazy or eager, wherever the other threads are.  The premises are decidable (cover_b: iter kills every mailbox and
+   joins every thread, one caller, wiring in range, repair F1; init_ok_b: the run starts with empty mailboxes and
+   buffers) and are evaluated by the harness on the network derived from every real processor it builds. *)
+Theorem C06_noticed_failure_shuts_down :
+  forall (nt : net) (main : nat) (boxes : list mbox) (threads : list thread),
+    cover_b nt (mkSt boxes threads) main = true -> init_ok_b boxes threads = true ->
+    forall sched st c, nrun nt (ninit nt boxes threads) sched = Some st -> noticed main st c ->
+    forall sched' st', nrun nt st sched' = Some st' -> quiescent nt st' ->
+      all_terminal st' = true /\ main_outcome st' main = Some (OErr (EOrig c)).
+Proof. exact shutdown_theorem_b. Qed.
+Print Assumptions C06_noticed_failure_shuts_down.
+
 (* ---------- all schedules of concrete chains and fan-outs, every failure position (verified exhaustive
    exploration of the reachable state set, Proof/MailboxFailReach.v + Proof/MailboxFailInstances.v) ---------- *)
 From SV Require Import Proof.MailboxFailReach Proof.MailboxFailInstances Proof.MailboxFailInstChain
